@@ -5,6 +5,7 @@ write_args / write_copied_file_arg emit into the shell script goes through the e
 literals are written raw, and unescaped argument text only inside response files); the escaping
 routine puts a backslash in front of every byte of the POSIX shell special set — decided by folding its
 predicate for all 256 byte values (a finite domain, enumerated completely)."""
+import re
 import fold
 import hirq
 from mir import callee_key, declared_key, op_const, op_place, stable, bool_edge_blocks, switch_chain, switch_bool_labels
@@ -172,6 +173,7 @@ def run(ctx, rep):
                            "a path produced by the textual `..` cancellation of normalize_abs_path is used to access the file system: for an input reached through a "
                            "symlinked directory this names a different (or no) file, and the saved bundle no longer replays", b.file, t["l"])
     rep.ob("lexical-paths", "summary", n_norm >= 1 and n_acc >= 5, f"{n_norm} call(s) of normalize_abs_path, {n_acc} file-system access call(s) in save_dir examined", "libwild/src/save_dir.rs", 0)
+    _response_file_copy(ctx, rep, F)
     rep.assume("byte-identical replay itself (same wild binary, same inputs) is a run-time matter")
 
 
@@ -193,3 +195,42 @@ class _ByteFolder(fold.Folder):
         if isinstance(recv, list) and name == "contains":
             return args[0] in recv
         return super().method(e, recv, args, depth)
+
+
+def _response_file_copy(ctx, rep, F):
+    """The run-with script re-creates each top-level response file line by line with a shell `read` loop (to substitute $D / $OUT). The saved at-N.txt
+    holds backslash-escaped arguments that the linker's response-file parser needs verbatim, so the loop must not interpret anything: `read` needs -r
+    (otherwise backslashes are consumed) and an empty IFS (otherwise leading/trailing blanks are trimmed), and the line must be re-emitted with a
+    `%s` format (echo / a format built from the line would reinterpret it)."""
+    from mir import callee_key
+    P = ctx.program()
+    rep.rule("rsp-copy", "if the setup script copies a response file with a shell read loop, it is `IFS= read -r` and the line is printed with printf '%s\\n' (nothing in the "
+             "line is interpreted by the shell on the way)")
+    b = F.body("libwild::save_dir::SaveDirState::write_args")
+    if b is None:
+        rep.lost("rsp-copy", "SaveDirState::write_args")
+        return
+    flow = P.flow(b)
+    templates = set()
+    for bi, t in flow.calls():
+        if (callee_key(t["f"]) or "").endswith("fmt::Arguments::new") or (callee_key(t["f"]) or "").endswith("Arguments::new_const"):
+            for a in t["args"]:
+                for x in flow.deep_origins(a):
+                    if x[0] == "const" and isinstance(x[2], str) and x[2].startswith('b"'):
+                        templates.add(x[2])
+    loops = [tpl for tpl in templates if re.search(r"\bread\b", tpl) and "while" in tpl]
+    if not loops:
+        rep.note("rsp-copy: the setup script has no shell read loop (response files are re-created by some other means): not decided")
+        rep.ob("rsp-copy", "mechanism", any("mktemp" in tpl or "RSP_" in tpl for tpl in templates), "a response-file re-creation snippet exists", b.file, b.line)
+        return
+    for n, tpl in enumerate(sorted(loops)):
+        reads = re.findall(r"(IFS=\S*\s+)?read((?:\s+-\w+)*)\s+(\w+)", tpl)
+        ok_r = bool(reads) and all("r" in flags.replace("-", "").replace(" ", "") for _ifs, flags, _v in reads)
+        ok_ifs = bool(reads) and all(ifs.strip() == "IFS=" for ifs, _f, _v in reads)
+        rep.ob("rsp-copy", f"loop#{n}:raw-read", ok_r, "read -r: backslashes in the saved arguments reach the linker's response-file parser" if ok_r else
+               "`read` without -r: the shell consumes the backslashes that escape blanks/quotes in the saved response file, the replayed link sees different arguments", b.file, b.line)
+        rep.ob("rsp-copy", f"loop#{n}:empty-ifs", ok_ifs, "IFS= : leading/trailing blanks of a line are kept", b.file, b.line)
+        pr = re.findall(r"printf\s+(\S+)", tpl)
+        ec = re.search(r"\becho\b", tpl)
+        ok_p = bool(pr) and all(re.fullmatch(r"\\?'%s(\\\\n)?\\?'", x) or "%s" in x and "$" not in x for x in pr) and not ec
+        rep.ob("rsp-copy", f"loop#{n}:verbatim-print", ok_p, f"the line is printed with a constant %s format ({pr})" if ok_p else f"the line is re-emitted through {pr or 'echo'}: its contents are reinterpreted", b.file, b.line)
